@@ -117,6 +117,9 @@ func ruleJournalWrite(p *Prog, r *Report, rule string) {
 }
 
 func runC04(p *Prog, r *Report) {
+	if want("C04.36") {
+		ruleRecordBytesFresh(p, r, "C04.36")
+	}
 	if want("C04.35") {
 		ruleOptGetters(p, r, "C04.35", "durability switches", "WriteOptions.GetSync", "Options.GetNoSync")
 	}
